@@ -5,7 +5,7 @@ property's check (quick tier) against the patched worktree (VERIF_REPO) and stor
 import json, os, shutil, subprocess, sys, time
 
 HERE = os.path.dirname(os.path.dirname(os.path.abspath(__file__)))
-wt, pid = sys.argv[1], sys.argv[2]
+wt, pid_arg = sys.argv[1], sys.argv[2]
 extra = sys.argv[3:]
 env = dict(os.environ, PYTHONPATH=wt, PYTHONDONTWRITEBYTECODE="1")
 
@@ -23,6 +23,12 @@ for n in sorted(os.listdir(os.path.join(wt, "seed"))):
     patch = os.path.join(d, "patch.diff")
     if not os.path.exists(patch):
         continue
+    pid = pid_arg
+    if pid_arg == "auto":
+        import re
+
+        m = re.search(r"C\d\d", open(os.path.join(d, "property.txt")).read())
+        pid = m.group(0)
     git("checkout", "--", "han")
     meta = {"property": pid, "seed": os.environ.get("SEED_PREFIX", "") + n, "source": "independent sub-agent given only the property text and a scratch worktree"}
     r0 = sh(f"cd {wt} && timeout 120 /venv/bin/python seed/{n}/demo.py", env=env)
